@@ -87,6 +87,28 @@ NAMES3 = {
     ("C19", "1"): ("range-check-all-instead-of-any", []), ("C19", "2"): ("coordinates-in-data-dtype", []),
     ("C20", "1"): ("mixed-none-weights-dropped", []), ("C20", "2"): ("kfold-fallback-unseeded", ["C11"]),
 }
+NAMES4 = {
+    ("C01", "1"): ("unscale-guard-isclose-absolute", []), ("C01", "2"): ("ridge-alpha-zero-normal-equations", []),
+    ("C02", "1"): ("forces-at-deduplicated-data", []), ("C02", "2"): ("trend-degree-zero-unweighted-mean", []),
+    ("C03", "1"): ("jacobian-coords-cast-to-dtype", []), ("C03", "2"): ("greens-small-distance-cutoff", []),
+    ("C04", "1"): ("predict-empty-like-ravel-copy", []), ("C04", "2"): ("trend-fit-counts-rows", []),
+    ("C05", "1"): ("grid-coordinates-branch-skips-projection", []), ("C05", "2"): ("profile-distance-from-projected-endpoints", []),
+    ("C06", "1"): ("knn-k1-filter-shortcut", []), ("C06", "2"): ("chain-predict-nan-as-zero", []),
+    ("C07", "1"): ("interval-count-difference-of-rounds", []), ("C07", "2"): ("pixel-centres-stale-stop", []),
+    ("C08", "1"): ("searchsorted-single-centre-wrap", []), ("C08", "2"): ("spacing-reversed-before-grid", []),
+    ("C09", "1"): ("centre-coordinates-extras-always-mean", []), ("C09", "2"): ("reduction-resolved-at-init", ["C20"]),
+    ("C10", "1"): ("v2w-min-over-positive-not-tol", []), ("C10", "2"): ("weighted-variance-stale-weights", []),
+    ("C11", "1"): ("shuffle-balance-counts-complement", []), ("C11", "2"): ("kfold-bincount-empty-blocks", []),
+    ("C12", "1"): ("train-as-complement-of-test", []), ("C12", "2"): ("splinecv-argmin-for-loss-scorers", []),
+    ("C13", "1"): ("project-region-diagonal-only", []), ("C13", "2"): ("get-region-check-coordinates", []),
+    ("C14", "1"): ("windows-by-scaled-coordinates", []), ("C14", "2"): ("expanding-window-native-dtype", []),
+    ("C15", "1"): ("knn-k-clamped-in-place", ["C20"]), ("C15", "2"): ("distance-mask-grid-double-projection", []),
+    ("C16", "1"): ("hull-mask-from-blocked-points", []), ("C16", "2"): ("hull-mask-chunks-floor", []),
+    ("C17", "1"): ("west-bound-wrapped-to-plus-180", []), ("C17", "2"): ("coordinates-checked-via-region", []),
+    ("C18", "1"): ("meshgrid-check-either-axis", []), ("C18", "2"): ("table-column-stack-promotes", []),
+    ("C19", "1"): ("transposed-header-accepted", []), ("C19", "2"): ("contextmanager-no-finally", []),
+    ("C20", "1"): ("serial-cv-fits-callers-estimator", ["C12"]), ("C20", "2"): ("default-region-written-to-param", ["C09"]),
+}
 PREFIX = ""
 ENV1 = {"OMP_NUM_THREADS": "1", "OPENBLAS_NUM_THREADS": "1", "MKL_NUM_THREADS": "1"}
 
@@ -186,6 +208,9 @@ def main():
     if "--wave3" in args:
         SRC, NAMES, PREFIX = "/tmp/mutout3", NAMES3, "w3-"
         args.remove("--wave3")
+    if "--wave4" in args:
+        SRC, NAMES, PREFIX = "/tmp/mutout4", NAMES4, "w4-"
+        args.remove("--wave4")
     jobs, only, run_tests = 4, None, True
     i = 0
     while i < len(args):
